@@ -26,6 +26,13 @@ NA = {
 NOT_BUILT = "check not built yet (build in progress; see DESIGN.md Appendix C)"
 
 CHECKS = {
+    "C19": {
+        "category": "exploration",
+        "text": "Seeded search over how one schema reaches the generator: each corpus/drawn world is generated from a single SDL file, from 1-2 drawn partitions of its definitions (type extensions split from base types, nested directories, mixed .graphql/.graphqls/.gql, names whose sorted order differs from definition order) enumerated under permuted directory order and hash seeds, and through a simulated remote endpoint that executes the generator's own introspection query with graphql-core. Packages are compared semantically per module (sets of top-level statements; input models by evaluated defaults and requiredness in a child interpreter). For the remote source every listed class of introspection response (non-2xx, non-JSON, torn, non-object, no data, errors, data not an object, six kinds of malformed introspection data, unparseable and scheme-less URLs) is injected once and sampled further: IntrospectionError, nothing written; the captured request must be a POST of an introspection query to the configured URL with the $ENV-resolved headers, and the transport must be built with verify == remote_schema_verify_ssl.",
+        "design_ref": "DESIGN.md section 4 (C19)",
+        "note": "Trusted: graphql-core as the remote endpoint, the transport seam (TLS not performed; verify captured at transport construction), AST-level package comparison. Transport-level failures only assert termination without writes.",
+        "technique": "deterministic simulation: file-partition and enumeration-order injection plus a simulated remote schema peer with response-fault injection behind the httpx transport seam; semantic differential between sources",
+    },
     "C17": {
         "category": "fault_enumeration",
         "text": "Single-fault injection into a valid project: every fault kind of the catalogue (configuration constraints incl. each name option x {non-identifier, empty, keyword, leading digit, space}; missing/wrong-kind paths; unset/empty $ENV header; unknown comment mode; scalar without type; missing section/config file; torn, brace-dropped, garbled and emptied GraphQL files at drawn positions; one mutation per graphql-core schema validation rule; one AST mutation per operation validation rule; benign controls) is applied to corpus worlds (quick 3, thorough 8 x 4 prior target states) and to drawn worlds, the real CLI runs in a child interpreter under an audit-hook file-system recorder, and the run is judged: typed ariadne-codegen exception of the right kind naming the problem, zero write-intent events on the target and equal before/after snapshots; valid inputs accepted, unknown keys ignored, configuration dict unchanged. Which faulted inputs are invalid is decided by reference validators. The fault-kind table is swept completely; positions and worlds are sampled.",
